@@ -216,6 +216,19 @@ def check_row(ck, row, case):
         bad.append((_sig(name, meth, pred),
                     f"{which}: call gives {np.asarray(got['value']).tolist()} but {name}(**{eff}).{meth}(x) gives "
                     f"{np.asarray(want).tolist()} for x={case['x']}"))
+    if (case["mode"] == 2 or case["expl"]) and np.ndim(x) == 1:
+        # the same call with one parameter value per point of x (ndarrays): explicit parameters / the values of the
+        # dependence functions for an array of conditioning values
+        got2, _ = sentinel.run_get_row_concrete(case, case["arg"], case["farg"], case["expl_values"], case["dep"], x,
+                                                arrays=True)
+        ck.count("rows:array_valued_parameters")
+        if got2["exc"] is not None:
+            bad.append((_sig(name, meth, pred + ":raises"), "array-valued parameters: " + got2["exc"]))
+        elif not sentinel.same_values(got2["value"], want):
+            which = [params[p] for p in (case["expl"] or case["fixed"])]
+            bad.append((_sig(name, meth, pred),
+                        f"{which} (parameter values as ndarrays of the shape of x): call gives {np.asarray(got2['value']).tolist()} "
+                        f"but {name}(**{eff}).{meth}(x) gives {np.asarray(want).tolist()} for x={case['x']}"))
     # translator self-check: symbolic slots evaluated = arguments of the concrete scipy call
     if row is not None and row["result"] is not None:
         env = {}
@@ -385,6 +398,53 @@ def explore_case(ck, name, theta, theta0, jobs, pending):
                 bad.append((_sig(name, meth, "explicit_equals_constructed"),
                             f"{name}(**{theta0}).{meth}(x, {p}={theta[p]}) = {np.asarray(g).tolist()} but "
                             f"{name}(**{mixed}).{meth}(x) = {np.asarray(w).tolist()}; x={arr.tolist()}"))
+        # --- array-valued explicit parameters (one value per element of x: the way ConditionalDistribution, IFORM and
+        #     the highest-density contour call the distributions): constant arrays = the constructed instance; arrays
+        #     that alternate between theta and theta0 = element-wise the two constructed instances
+        v0, exc0 = call(cls(**theta0), meth, arr)
+        if exc0 is None:
+            v0 = np.asarray(v0, dtype=float)
+            mask = (np.arange(len(arr)) % 2 == 0)
+            const = {p: np.full(arr.shape, float(theta[p])) for p in DOC_PARAMS[name]}
+            vary = {p: np.where(mask, float(theta[p]), float(theta0[p])) for p in DOC_PARAMS[name]}
+            avar = [("all_explicit_array_kw", (), const, v),
+                    ("all_explicit_array_positional", tuple(const[p] for p in DOC_PARAMS[name]), {}, v),
+                    ("all_explicit_varying_array_kw", (), vary, np.where(mask, v, v0))]
+            if name != "LogNormalNormFitDistribution":
+                for p in DOC_PARAMS[name]:
+                    mixed = dict(theta0)
+                    mixed[p] = theta[p]
+                    w, exc2 = call(cls(**mixed), meth, arr)
+                    if exc2 is None:
+                        avar.append((f"single_explicit_varying_array:{p}", (), {p: vary[p]},
+                                     np.where(mask, np.asarray(w, dtype=float), v0)))
+            for label, a, kw, want in avar:
+                g, exc = call(cls(**theta0), meth, arr, *a, **kw)
+                ck.count("explicit_array:" + label.split(":")[0])
+                if exc:
+                    bad.append((_sig(name, meth, "explicit_array_equals_constructed:raises"), f"{label}: {exc}"))
+                elif not sentinel.same_values(g, want):
+                    bad.append((_sig(name, meth, "explicit_array_equals_constructed"),
+                                f"[{label}] {name}(**{theta0}).{meth}(x, {({k: np.asarray(t).tolist() for k, t in kw.items()} or [np.asarray(t).tolist() for t in a])}) = "
+                                f"{np.asarray(g).tolist()} but the instances constructed with the element's values give "
+                                f"{np.asarray(want).tolist()}; x={arr.tolist()}"))
+            # --- an explicit parameter is an argument of that one call: the instance is the same afterwards
+            R = cls(**theta0)
+            before = {k: core.f2b(t) for k, t in R.parameters.items()}
+            calls_ = [dict(theta)] + ([] if name == "LogNormalNormFitDistribution" else [{p: theta[p]} for p in DOC_PARAMS[name]])
+            for kw in calls_:
+                call(R, meth, arr, **kw)
+                g, exc = call(R, meth, arr)
+                try:
+                    now = {k: core.f2b(t) for k, t in R.parameters.items()}
+                except (TypeError, ValueError):
+                    now = {k: repr(t) for k, t in R.parameters.items()}
+                ck.count("instance_reuse_after_explicit_call")
+                if exc or now != before or not sentinel.same_values(g, v0):
+                    bad.append((_sig(name, meth, "explicit_call_leaves_instance_unchanged"),
+                                f"inst = {name}(**{theta0}); inst.{meth}(x, **{kw}); then inst.parameters = {dict(R.parameters)} and "
+                                f"inst.{meth}(x) = {exc or np.asarray(g).tolist()}, a fresh instance gives {v0.tolist()}; x={arr.tolist()}"))
+                    break
         # --- array_like: list, list of ints, scalar float, python int
         g, exc = call(A, meth, [float(t) for t in arr])
         if exc:
@@ -397,16 +457,52 @@ def explore_case(ck, name, theta, theta0, jobs, pending):
                 bad.append((_sig(name, meth, "array_like:scalar"), exc))
             elif np.shape(g) != () or not sentinel.same_values(float(g), v[i]):
                 bad.append((_sig(name, meth, "array_like:scalar"), f"scalar {arr[i]!r} -> {g!r}, in array {v[i]!r}"))
-        if meth != "icdf":
-            ints = [int(t) for t in np.unique(np.round(arr[np.abs(arr) < 1e6]))][:6]
-            if ints:
-                gi, exc = call(A, meth, ints)
-                gf, exc2 = call(A, meth, np.array(ints, dtype=float))
+        g, exc = call(A, meth, tuple(float(t) for t in arr))
+        if exc or not sentinel.same_values(g, v):
+            bad.append((_sig(name, meth, "array_like:tuple"), exc or f"tuple input {np.asarray(g).tolist()} vs ndarray {v.tolist()}"))
+        # whole numbers as Python ints / integer containers / integer-dtype arrays (probabilities: 0 and 1)
+        ints = [0, 1] if meth == "icdf" else [int(t) for t in np.unique(np.round(arr[np.abs(arr) < 1e6]))][:6]
+        if ints:
+            gf, exc2 = call(A, meth, np.array(ints, dtype=float))
+            for label, xi in (("int_list", ints), ("int_tuple", tuple(ints)), ("int64_ndarray", np.array(ints, dtype=np.int64)),
+                              ("int32_ndarray", np.array(ints, dtype=np.int32))):
+                gi, exc = call(A, meth, xi)
+                ck.count("array_like:" + label)
                 if exc or exc2:
-                    bad.append((_sig(name, meth, "array_like:int_list"), str(exc or exc2)))
+                    bad.append((_sig(name, meth, "array_like:" + label), str(exc or exc2)))
                 elif not sentinel.same_values(gi, gf):
-                    bad.append((_sig(name, meth, "array_like:int_list"),
+                    bad.append((_sig(name, meth, "array_like:" + label),
                                 f"{ints} -> {np.asarray(gi).tolist()} vs floats {np.asarray(gf).tolist()}"))
+            if exc2 is None:
+                for j in (0, len(ints) - 1):
+                    gi, exc = call(A, meth, ints[j])
+                    ck.count("array_like:int_scalar")
+                    if exc or np.shape(gi) != () or not sentinel.same_values(float(gi), np.asarray(gf, dtype=float)[j]):
+                        bad.append((_sig(name, meth, "array_like:int_scalar"),
+                                    f"python int {ints[j]!r} -> {exc or gi!r}, as float {np.asarray(gf).tolist()[j]!r}"))
+        # 0-d array = scalar; float32 array = the same numbers as float64; empty array -> empty result
+        i = len(arr) // 2
+        g, exc = call(A, meth, np.array(arr[i]))
+        if exc or np.shape(g) != () or not sentinel.same_values(float(g), v[i]):
+            bad.append((_sig(name, meth, "array_like:zero_dim"), f"0-d array {arr[i]!r} -> {exc or g!r}, in array {v[i]!r}"))
+        a32 = arr.astype(np.float32)
+        g, exc = call(A, meth, a32)
+        w, exc2 = call(A, meth, a32.astype(float))
+        ck.count("array_like:float32")
+        if exc or exc2 or np.shape(g) != np.shape(w) or (meth != "icdf" and not sentinel.same_values(g, w, rtol=1e-5)):
+            # float32 in: the same numbers as float64 must give the same cdf / pdf (scipy promotes); the quantile
+            # function is evaluated by scipy.special in float32, its accuracy is not virocon's: only runs + shape
+            bad.append((_sig(name, meth, "array_like:float32"),
+                        str(exc or exc2) if (exc or exc2) else f"float32 input {np.asarray(g).tolist()} vs the same numbers as float64 {np.asarray(w).tolist()}"))
+        g, exc = call(A, meth, np.array([], dtype=float))
+        ck.count("array_like:empty")
+        if exc or np.shape(g) != (0,):
+            bad.append((_sig(name, meth, "array_like:empty"), exc or f"empty input gives shape {np.shape(g)}"))
+        # outside the documented input (1-dimensional, real numbers): executed and counted, NO verdict
+        for label, xi in (("2d", arr[: 2 * (len(arr) // 2)].reshape(2, -1)), ("nan", np.array([np.nan, arr[i]]))):
+            g, exc = call(A, meth, xi)
+            ck.count(f"observed_no_verdict:x_{label}:" + (exc.split(":")[0] if exc else "returned"))
+    bad += endpoints(ck, name, theta, A)
     # --- mutual consistency on the instance's own outputs
     if all(m in ref for m in METHS):
         bad += consistency(name, theta, A, xs, ps, ref, lo)
@@ -438,6 +534,60 @@ def explore_case(ck, name, theta, theta0, jobs, pending):
     for sig, detail in bad:
         ck.fail(sig, case, detail)
     return case
+
+
+def support_ends(name, theta):
+    """(lower, upper) end of the support by the DOCUMENTED parameterisation (no scipy call); None: no verdict (the von
+    Mises law as shipped is scipy's 2pi-periodic one on the whole line, its quantiles at 0 and 1 are scipy's business)"""
+    t = theta
+    if name == "WeibullDistribution":
+        return float(t["gamma"]), np.inf
+    if name in ("LogNormalDistribution", "LogNormalNormFitDistribution", "ExponentiatedWeibullDistribution",
+                "GeneralizedGammaDistribution"):
+        return 0.0, np.inf
+    if name in ("NormalDistribution", "GumbelScipyDistribution"):
+        return -np.inf, np.inf
+    if name == "GammaScipyDistribution":
+        return float(t["loc"]), np.inf
+    if name == "BetaScipyDistribution":
+        return float(t["loc"]), float(t["loc"]) + float(t["scale"])
+    return None
+
+
+def endpoints(ck, name, theta, A):
+    """icdf(0) / icdf(1) = the ends of the support exactly (the documented closed forms give exactly these values; the
+    conditioning-aware tolerance of the formula comparison is infinite there), cdf(-inf) = 0, cdf(+inf) = 1"""
+    bad = []
+    ends = support_ends(name, theta)
+    for container in ("scalar", "ndarray"):
+        q, exc = call(A, "icdf", np.array([0.0, 1.0]) if container == "ndarray" else 0.0)
+        if container == "scalar" and exc is None:
+            q1, exc = call(A, "icdf", 1.0)
+            q = [q, q1]
+        if exc:
+            bad.append((_sig(name, "icdf", "raises_on_ndarray"), exc))
+            continue
+        q = [float(t) for t in np.asarray(q, dtype=float).ravel()]
+        ck.count("icdf_endpoints:" + ("observed_no_verdict" if ends is None else "checked"))
+        if ends is not None and not (q[0] == ends[0] and q[1] == ends[1]):
+            bad.append((_sig(name, "icdf", "support_endpoints"),
+                        f"{name}(**{theta}).icdf(0) = {q[0]!r}, icdf(1) = {q[1]!r} ({container}); the support is [{ends[0]!r}, {ends[1]!r}]"))
+    c, exc = call(A, "cdf", np.array([-np.inf, np.inf]))
+    if exc:
+        bad.append((_sig(name, "cdf", "raises_on_ndarray"), "x = -inf, +inf: " + exc))
+    else:
+        c = np.asarray(c, dtype=float)
+        ck.count("cdf_at_infinity")
+        if not (c.shape == (2,) and c[0] == 0.0 and c[1] == 1.0):
+            bad.append((_sig(name, "cdf", "limits_at_infinity"), f"cdf(-inf) = {c.tolist()[0]!r}, cdf(+inf) = {c.tolist()[-1]!r}"))
+    for x in (np.inf, -np.inf):
+        g, exc = call(A, "pdf", x)
+        try:
+            cls_ = "raises" if exc else ("zero" if float(g) == 0 else "nan" if np.isnan(float(g)) else "other")
+        except (TypeError, ValueError):
+            cls_ = "other"
+        ck.count("observed_no_verdict:pdf_at_infinity:" + cls_)
+    return bad
 
 
 def consistency(name, theta, A, xs, ps, ref, lo):
@@ -480,6 +630,17 @@ def consistency(name, theta, A, xs, ps, ref, lo):
         with np.errstate(all="ignore"):
             # p-resolution of a double x: spacing(x) * pdf(x)
             tolp = 1e-9 + 4 * np.spacing(np.abs(q[mid])) * np.nan_to_num(np.asarray(fq, dtype=float), posinf=0.0)
+        unbounded = ~np.isfinite(np.asarray(fq, dtype=float)) if fq is not None else np.zeros(len(err), dtype=bool)
+        if np.any(unbounded & ~(err <= tolp)):
+            # the density is infinite at the returned quantile (it rounded onto the end of the support, e.g. a gamma law
+            # with shape < 1 and a non-zero location): spacing * pdf is meaningless there, the p-resolution of the double
+            # is measured directly, p must lie between the cdf values of the neighbouring doubles
+            qq = q[mid]
+            dn, e1 = call(A, "cdf", qq - 2 * np.spacing(np.abs(qq)))
+            up, e2 = call(A, "cdf", qq + 2 * np.spacing(np.abs(qq)))
+            if e1 is None and e2 is None:
+                inside_ = (np.asarray(dn) - 1e-9 <= ps[mid]) & (ps[mid] <= np.asarray(up) + 1e-9)
+                err = np.where(unbounded & inside_, 0.0, err)
         if np.any(~(err <= tolp)):
             j = int(np.nanargmax(np.where(np.isnan(err), np.inf, err)))
             bad.append((_sig(name, "cdf", "cdf_of_icdf"), f"cdf(icdf({ps[mid][j]!r})) = {np.asarray(back)[j]!r}"))
@@ -511,7 +672,10 @@ def consistency(name, theta, A, xs, ps, ref, lo):
             dn, e2 = call(A, "cdf", xo - h)
             if e1 is None and e2 is None:
                 num = (np.asarray(up) - np.asarray(dn)) / ((xo + h) - (xo - h))
-                tol = 1e-4 * np.abs(fo) + 1e-13 * Fo / h
+                # scipy evaluates the von Mises cdf for kappa >= 50 by a corrected normal approximation whose derivative
+                # agrees with the density to ~3e-4 only (scipy's leaf, not virocon's map)
+                rt = 2e-3 if circ and theta["kappa"] >= 50 else 1e-4
+                tol = rt * np.abs(fo) + 1e-13 * Fo / h
                 err = np.abs(num - fo)
                 if np.any(~(err <= tol)):
                     j = int(np.argmax(err - tol))
@@ -547,6 +711,11 @@ def compare_model(ck, pending, results):
             with np.errstate(all="ignore"):
                 ok = (ref == mod) | (np.abs(ref - mod) <= cond * np.maximum(np.abs(ref), np.abs(mod))
                                      + 1e-12 * abs(float(np.nanmedian(ref[np.isfinite(ref)]))))
+            # p = 0 and p = 1: the tolerance above is infinite there; the documented closed form evaluated at Float gives
+            # the end of the support itself (log 1 = 0, log 0 = -inf), so the comparison is exact
+            if name != "VonMisesDistribution":
+                end = ((arr == 0) | (arr == 1)) & ~np.isnan(mod)
+                ok = np.where(end, ref == mod, ok)
         ck.hyp_checked += len(arr)
         if not np.all(ok):
             j = int(np.argmin(ok))
@@ -616,9 +785,13 @@ def main(ck):
         "(1) every row of the generated call table (family x method x explicit subset x calling convention) is "
         "re-executed with random concrete values: symbolic slots = concrete scipy arguments, result = instance "
         "constructed with the effective values; (2) per family, random admissible parameter vectors over several "
-        "decades x (x on / below / above the support from the family's own quantiles, p in [0,1] incl. 0 and 1) x "
-        "(ndarray, list, int list, scalar) x (constructed, all-explicit keyword / positional / default instance, every "
-        "single-parameter override): documented formula (Lean Float, special functions tabled from scipy.special) "
+        "decades (scales 4 decades, shapes 2-3 decades incl. von Mises kappa >= 50, locations exactly 0.0 in a fixed "
+        "share) x (x on / below / above the support from the family's own quantiles, +-inf for the cdf, p in [0,1] incl. 0 "
+        "and 1 with icdf(0) / icdf(1) = ends of the support exactly) x (float ndarray, list, tuple, scalar, 0-d array, "
+        "float32 / int64 / int32 ndarray, int list / tuple / Python int, empty array) x (constructed, all-explicit keyword "
+        "/ positional / default instance, every single-parameter override, parameter values as ndarrays of the shape of "
+        "x - constant and varying element-wise -, the instance re-used after an explicit-parameter call): documented "
+        "formula (Lean Float, special functions tabled from scipy.special) "
         "and the consistency clauses; a case is non-trivial if its parameters are not the defaults and it has >= 5 "
         "interior support points (exploration) or at least one explicit parameter (rows); distinct by SHA1")
     ck.assumptions = [
@@ -626,12 +799,27 @@ def main(ck):
         "cdf/ppf are leaves taken from scipy.special / scipy.stats standard forms (not from virocon)",
         "sentinel translator: a method that inspects the value of a parameter is reported (SentinelBranch), and every "
         "row is cross-checked against a concrete run",
+        "2-dimensional x and NaN are outside the documented input (1-dimensional real numbers): executed and counted, no "
+        "verdict; pdf(+-inf) likewise (scipy returns nan for some laws); the von Mises law is scipy's 2pi-periodic one on "
+        "the whole line, its icdf(0) / icdf(1) get no verdict; float32 probabilities are evaluated by scipy.special in "
+        "float32 (icdf: only runs + shape); for kappa >= 50 scipy's von Mises cdf is a corrected normal approximation "
+        "whose numerical derivative matches the density to 2e-3 only",
     ]
     ck.partial = {
         "lognormal_*_partial, normal_*_partial, gg_*_partial, vonmises_*_partial":
             "inverse and monotonicity laws proven relative to an abstract strictly monotone Phi / P(m,.) / V_kappa "
             "with inverse (scipy's contract); that scipy's special functions meet the contract, and pdf = d/dx cdf "
             "for these families, is observed numerically on the explored points only",
+        "GammaScipyDistribution, BetaScipyDistribution (ScipyDistribution subclasses by scipy_dist_name), "
+        "LogNormalNormFitDistribution":
+            "no monotonicity / inverse / derivative theorem of their own: for the two subclasses only the identity-map "
+            "theorem (scipy_subclass_identity_map: the parameters reach scipy's slots unchanged) is proven, for the norm-fit "
+            "log-normal the moment map (lognormfit_moments, scipy_form_eq_documented_lognormfit) onto the log-normal formulas; "
+            "cdf monotone from 0 to 1, icdf(cdf x) = x, cdf(icdf p) = p, pdf = d/dx cdf, pdf >= 0 are OBSERVED on the "
+            "explored points only",
+        "array-valued parameters, instance re-use, input containers, icdf(0) / icdf(1), cdf(+-inf)":
+            "observed per run on the real code (the table theorems are about which expression reaches which scipy slot, not "
+            "about the container type of a value)",
         "float rounding": "theorems are over the reals; agreement of the Float evaluation is observed (rtol 1e-9)",
     }
     # (0) a table theorem no longer holds -> name the rows with the Lean predicates, make them concrete
